@@ -18,6 +18,7 @@ import torch
 
 from specs import marginal, trees
 from vt import nf
+from vt.cond import Undecided
 from vt.runner import Ob, Refuted
 from vt.scenario import el, scenario_ob, slog, sexp
 from vt.symtorch import ST, from_rfs
@@ -205,9 +206,11 @@ def scn_prune_cut(variant, left_kind, right_kind, S, K, N):
         # the prefix reads only len(post_indexing) (tip count); T-1 triples, the generic one among them
         post = [[5, 0, 2], [6, 5, 4], [node, left, right], [8, 7, 6]]
         state = c.prefix(partials, weights, post, mats, freqs, props)
-        state.update(node=node, left=left, right=right)
+        if len(c.target_names) != 3:
+            raise Undecided("loop target is no longer a (node, left, right) triple: %s" % c.header)
+        state.update(dict(zip(c.target_names, (node, left, right))))     # loop variables by position in the header, not by name
         tag, st2 = c.body(state)
-        out = st2["partials"]
+        out = st2[c.params[0]]
         cl = [("true", "loop_shape", c.kind == "for" and c.n_body >= 1 and tag == "next", c.header)]
         cl.append(("true", "frame_only_partials[node]_written", all(out[m] is sentinels[m] for m in sentinels if m != node) and out[left] is Lv[left] and out[right] is Lv[right]))
 
@@ -242,8 +245,8 @@ def scn_prune_cut(variant, left_kind, right_kind, S, K, N):
         st3 = dict(st2)
         plist = list(out)
         plist[node] = root
-        st3["partials"] = plist
-        st3["post_indexing"] = [[node, left, right]]
+        st3[c.params[0]] = plist
+        st3[c.params[2]] = [[node, left, right]]
         res = c.suffix(st3)
         want = 0
         for n in range(N):
